@@ -551,6 +551,12 @@ func (e *executor) executeMinRow(ctx context.Context, index string, c *pql.Call,
 		prevp, _ := prev.(Pair)
 		vp, _ := v.(Pair)
 		if prevp.Count > 0 && vp.Count > 0 {
+			// The same row in several shards: its count is the total,
+			// whichever shard's result arrives first.
+			if prevp.ID == vp.ID {
+				prevp.Count += vp.Count
+				return prevp
+			}
 			if prevp.ID < vp.ID {
 				return prevp
 			}
@@ -585,6 +591,12 @@ func (e *executor) executeMaxRow(ctx context.Context, index string, c *pql.Call,
 		prevp, _ := prev.(Pair)
 		vp, _ := v.(Pair)
 		if prevp.Count > 0 && vp.Count > 0 {
+			// The same row in several shards: its count is the total,
+			// whichever shard's result arrives first.
+			if prevp.ID == vp.ID {
+				prevp.Count += vp.Count
+				return prevp
+			}
 			if prevp.ID > vp.ID {
 				return prevp
 			}
